@@ -393,7 +393,7 @@ Proof.
 Qed.
 
 Lemma date_from_parts_body_ok : forall x y z, ok b (date_from_parts_body x y z).
-Proof. intros. unfold date_from_parts_body. destruct (_ || _); exact I. Qed.
+Proof. intros. unfold date_from_parts_body. repeat (destruct (_ || _); [exact I|]). exact I. Qed.
 
 Lemma time_from_parts_body_ok : forall x y z, ok b (time_from_parts_body x y z).
 Proof. intros. unfold time_from_parts_body. repeat (destruct (_ || _); [exact I|]). exact I. Qed.
